@@ -82,10 +82,41 @@ def rule_r1(ctx):
         ctx.r.violation(rid, key_of(f, n.ast, "headers-assigned"), "response_headers assigned from %s without the validation loop" % norm(n.ast.value), f.loc(n.ast))
     for n, c in ext:
         arg = c.args[0] if c.args else None
-        if dotted(arg) != headers:
+        # what is stored: the application's own list object (its pairs stay the application's: a pair given as a list can
+        # be changed after validation), a list of fresh (name, value) tuples built in the validating loop, or a
+        # comprehension building such tuples
+        fresh = False
+        pair_appends = []
+        if dotted(arg) == headers:
+            fresh = False
+        elif isinstance(arg, ast.Name):
+            pair_appends = [(m, c2) for m, c2 in find_calls(g, lambda c2: dotted(c2.func) == arg.id + ".append")]
+            inits = [m for m in g.nodes if m.kind == "stmt" and isinstance(m.ast, ast.Assign) and dotted(m.ast.targets[0]) == arg.id]
+            others = [m for m in g.nodes if m.kind == "stmt" and m.ast is not None and not isinstance(m.ast, (ast.FunctionDef, ast.ClassDef)) and any(isinstance(y, ast.Name) and y.id == arg.id for y in ast.walk(m.ast))
+                      and m not in inits and m is not n and m not in [x for x, _ in pair_appends]]
+            if not (pair_appends and len(inits) == 1 and isinstance(inits[0].ast.value, ast.List) and not inits[0].ast.value.elts and not others):
+                ctx.r.violation(rid, key_of(f, None, "headers-other-value"), "%s stores something else than the validated header list" % norm(c), f.loc(n.ast))
+                continue
+            fresh = True
+        elif isinstance(arg, (ast.ListComp, ast.GeneratorExp)) and len(arg.generators) == 1 and dotted(arg.generators[0].iter) == headers and not arg.generators[0].ifs \
+                and isinstance(arg.elt, ast.Tuple) and isinstance(arg.generators[0].target, ast.Tuple) and [norm(e) for e in arg.elt.elts] == [norm(e) for e in arg.generators[0].target.elts]:
+            fresh = True
+        else:
             ctx.r.violation(rid, key_of(f, None, "headers-other-value"), "%s stores something else than the validated header list" % norm(c), f.loc(n.ast))
             continue
         loops = [it for it in g.nodes if it.kind == "iter" and dotted(it.ast.iter) == headers and g.dominates(it, n)]
+        if loops and pair_appends:
+            lt = loops[0].ast.target
+            want = [norm(e) for e in lt.elts] if isinstance(lt, ast.Tuple) else None
+            for m, c2 in pair_appends:
+                a0 = c2.args[0] if c2.args else None
+                if not (isinstance(a0, ast.Tuple) and want is not None and [norm(e) for e in a0.elts] == want and any(y is c2 for y in ast.walk(loops[0].ast))):
+                    fresh = False
+        if fresh:
+            ctx.r.ok(rid, "the pairs stored are fresh (name, value) tuples of the validated strings", f.loc(n.ast))
+        else:
+            ctx.r.violation(rid, key_of(f, None, "app-owned-pairs"),
+                            "%s stores the application's own pair objects: a pair given as a list can be changed after start_response validated it (e.g. pair[1] = 'x\\r\\nSet-Cookie: ...'), and build_response_header emits the new text" % norm(c)[:50], f.loc(n.ast))
         if not loops:
             ctx.r.violation(rid, key_of(f, None, "headers-unvalidated"), "the application's header list is stored without a validating loop over it", f.loc(n.ast))
             continue
@@ -101,6 +132,9 @@ def rule_r1(ctx):
                 b = facts.get(k)
                 tn = [x for x in g.nodes if x.kind == "test" and b is not None and x.ast is b.ast]
                 ok = bool(tn) and any(x is tn[0].ast for x in ast.walk(lp.ast)) and g.path(body_start, lp, avoid=tn, follow_exc=False) is None
+                for m, _c2 in pair_appends:
+                    if tn and g.path(body_start, m, avoid=tn, follow_exc=False) is not None:
+                        ok = False
                 if ok:
                     ctx.r.ok(rid, "every header %s is checked to be %s on every iteration" % (role, what), f.loc(tn[0].ast))
                 else:
@@ -297,7 +331,9 @@ def rule_r6(ctx):
                 ctx.r.violation(rid, "error-constant::%s.%s" % (c.name, attr), "%s.%s is not a CR/LF-free constant (%r)" % (c.name, attr, v), c.module.path)
     tr = p.func("utilities.Error.to_response")
     st = [x for x in ast.walk(tr.node) if isinstance(x, ast.Assign) and any(isinstance(t, ast.Name) and t.id == "status" for t in x.targets)]
-    if st and isinstance(st[0].value, ast.JoinedStr) and all(isinstance(v, ast.Constant) or (isinstance(v, ast.FormattedValue) and dotted(v.value) in ("self.code", "self.reason")) for v in st[0].value.values):
+    parts = str_template(st[0].value) if st else None
+    if parts is not None and all(isinstance(pt, str) or (pt[1] in ("self.code", "self.reason") and pt[2] == "s") for pt in parts) \
+            and not any("\r" in pt or "\n" in pt for pt in parts if isinstance(pt, str)) and any(not isinstance(pt, str) for pt in parts):
         ctx.r.ok(rid, "error status line is f'{code} {reason}'", tr.loc(st[0]))
     else:
         ctx.r.violation(rid, key_of(tr, None, "error-status"), "Error.to_response builds the status from something else than code/reason", tr.loc())
